@@ -13,8 +13,9 @@
 
 package broker
 
-// Representation facts of one group: maps allocated, no nil member entry.
-//@ spec func groupOK(s *groupState) bool = s != nil && s.members != nil && s.assignments != nil && (forall k string :: has(s.members, k) ==> mapval(s.members, k) != nil)
+// Representation facts of one group: maps allocated, no nil member entry; allocated(x): x is an object that exists
+// (the engine has no such fact of its own for values stored in maps).
+//@ spec func groupOK(s *groupState) bool = s != nil && s.members != nil && s.assignments != nil && (forall k string :: has(s.members, k) ==> mapval(s.members, k) != nil && allocated(mapval(s.members, k))) && (forall k string :: has(s.assignments, k) ==> allocated(mapval(s.assignments, k)))
 
 // All current members have joined the current generation.
 //@ spec func allJoined(s *groupState) bool = forall k string :: has(s.members, k) ==> mapval(s.members, k).joinGeneration == s.generationID
@@ -65,7 +66,7 @@ package broker
 //@   loop 1 invariant forall k string :: seen(1, k) ==> mapval(s.members, k).joinGeneration == 0
 
 // Representation invariant of the coordinator (assumed at entry of every public method, re-established at exit).
-//@ spec func coordOK(c *GroupCoordinator) bool = c.groups != nil && !isNilIface(c.store) && (forall g string :: has(c.groups, g) ==> groupOK(mapval(c.groups, g)))
+//@ spec func coordOK(c *GroupCoordinator) bool = c.groups != nil && !isNilIface(c.store) && (forall g string :: has(c.groups, g) ==> allocated(mapval(c.groups, g)) && groupOK(mapval(c.groups, g)))
 
 // "member m of generation gen is current in group g": g is cached, m is one of its members, gen is its generation.
 //@ spec func current(c *GroupCoordinator, g string, m string, gen int32) bool = has(c.groups, g) && has(c.groups[g].members, m) && gen == c.groups[g].generationID
@@ -85,11 +86,16 @@ package broker
 //@   ensures keepsField("groupState", "*")
 //@   ensures keepsField("memberState", "*")
 //@   ensures keepsMap("string", "*memberState") && keepsMap("string", "[]assignmentTopic") && keepsMap("string", "*groupState")
+//@   ensures keepsMem("string") && keepsMem("assignmentTopic") && keepsMem("int32") && keepsMapLen()
+//@   loop 1 invariant keepsMem("string") && keepsMem("assignmentTopic") && keepsMem("int32") && keepsMapLen()
+//@   loop 2 invariant keepsMem("string") && keepsMem("assignmentTopic") && keepsMem("int32") && keepsMapLen() && fresh(memberAssignments)
 //@   loop 1 invariant state != nil && fresh(state) && state.members != nil && fresh(state.members) && state.assignments != nil && fresh(state.assignments) && state.generationID == group.GenerationId
 //@   loop 1 invariant forall k string :: has(state.members, k) ==> mapval(state.members, k) != nil && mapval(state.members, k).joinGeneration == group.GenerationId
+//@   loop 1 invariant (forall k string :: has(state.members, k) ==> allocated(mapval(state.members, k))) && (forall k string :: has(state.assignments, k) ==> allocated(mapval(state.assignments, k)))
 //@   loop 1 invariant groupsUntouched() && keepsMap("string", "*groupState")
 //@   loop 2 invariant state != nil && fresh(state) && state.members != nil && fresh(state.members) && state.assignments != nil && fresh(state.assignments) && state.generationID == group.GenerationId
 //@   loop 2 invariant forall k string :: has(state.members, k) ==> mapval(state.members, k) != nil && mapval(state.members, k).joinGeneration == group.GenerationId
+//@   loop 2 invariant (forall k string :: has(state.members, k) ==> allocated(mapval(state.members, k))) && (forall k string :: has(state.assignments, k) ==> allocated(mapval(state.assignments, k)))
 //@   loop 2 invariant groupsUntouched() && keepsMap("string", "*groupState") && -1 <= rangeindex && rangeindex < len(member.Assignments)
 //@   loop 2 invariant has(group.Members, memberID) && member == mapval(group.Members, memberID)
 
@@ -105,11 +111,10 @@ package broker
 //@   ensures [C14.load_establishes_group_invariant] result0 != nil && !old(has(c.groups, groupID)) ==> groupInv(result0)
 //@   ensures [C13.load_adds_only_requested_group] forall g string :: g != groupID || old(has(c.groups, groupID)) ==> has(c.groups, g) == old(has(c.groups, g)) && mapval(c.groups, g) == old(mapval(c.groups, g))
 //@   ensures coordOK(c) && c.groups == old(c.groups) && c.store == old(c.store) && groupsUntouched()
+//@   ensures keepsMem("string") && keepsMem("assignmentTopic") && keepsMem("int32")
 
 //@ func (c *GroupCoordinator) persistGroupLocked
 //@   nullable state
-//@   modular
-//@ func (c *GroupCoordinator) assignPartitions
 //@   modular
 //@ func encodeAssignment
 //@   modular
@@ -171,10 +176,21 @@ package broker
 //@   ensures forall g string :: g != groupID || old(has(c.groups, groupID)) ==> has(c.groups, g) == old(has(c.groups, g)) && mapval(c.groups, g) == old(mapval(c.groups, g))
 //@   ensures [C14.new_group_satisfies_invariant] err == nil && !old(has(c.groups, groupID)) ==> groupInv(result0)
 //@   ensures coordOK(c) && c.groups == old(c.groups) && c.store == old(c.store) && groupsUntouched()
+//@   ensures keepsMem("string") && keepsMem("assignmentTopic") && keepsMem("int32")
 
-//@ func (c *GroupCoordinator) parseSubscriptionTopics
-//@   modular
+// encodeMemberSubscriptions: one entry per current member (each member id occurs, nothing else occurs).
 //@ func (c *GroupCoordinator) encodeMemberSubscriptions
+//@   opaque_strings
+//@   merge_branches
+//@   returns_fresh
+//@   requires groupOK(state)
+//@   ensures [C14.member_list_is_complete] len(result) == len(state.members) && (forall i int :: 0 <= i && i < len(result) ==> has(state.members, result[i].MemberID)) && (forall k string :: has(state.members, k) ==> exists i int :: 0 <= i && i < len(result) && result[i].MemberID == k)
+//@   ensures keepsMem("string") && keepsMapLen()
+//@   loop 1 invariant keepsMem("string") && fresh(ids) && fresh(members) && len(members) == rangeidx(1) + 1 && -1 <= rangeidx(1) && rangeidx(1) < len(ids) && len(ids) == len(state.members)
+//@   loop 1 invariant forall i int :: 0 <= i && i < len(ids) ==> has(state.members, ids[i])
+//@   loop 1 invariant forall k string :: has(state.members, k) ==> exists i int :: 0 <= i && i < len(ids) && ids[i] == k
+//@   loop 1 invariant forall i int :: 0 <= i && i < len(members) ==> members[i].MemberID == ids[i]
+//@ func (c *GroupCoordinator) encodeSubscription
 //@   modular
 
 //@ func (c *GroupCoordinator) JoinGroup
